@@ -239,6 +239,26 @@ func genElems(t *rapid.T, min, max int, glob bool) []gn.Elem {
 }
 
 func genVal(t *rapid.T) gn.Val {
+	if rapid.IntRange(0, 7).Draw(t, "fine-values") == 5 {
+		// values that differ from their neighbours only beyond the precision of a float32 / float64, and the
+		// less common value types: "did the value change?" decides what an event-driven cache forwards
+		switch rapid.IntRange(0, 6).Draw(t, "fine-kind") {
+		case 0:
+			return gn.Val{Kind: "decimal", F: 2, I: rapid.SampledFrom([]int64{100000001, 100000002, 16777216, 16777217, 5}).Draw(t, "digits")}
+		case 1:
+			return gn.Val{Kind: rapid.SampledFrom([]string{"int", "uint"}).Draw(t, "bigkind"), I: rapid.SampledFrom([]int64{16777216, 16777217, 1 << 53, 1<<53 + 1}).Draw(t, "big")}
+		case 2:
+			return gn.Val{Kind: "double", F: rapid.SampledFrom([]float64{1e16, 1e16 + 2, 0.1, 0.1 + 1e-12, 4000000000001, 4000000000002}).Draw(t, "closef")}
+		case 3:
+			return gn.Val{Kind: "float", F: rapid.SampledFrom([]float64{2.5, 2.5000002}).Draw(t, "closef32")}
+		case 4:
+			return gn.Val{Kind: "leaflist", L: []gn.Val{{Kind: "int", I: int64(rapid.IntRange(0, 1).Draw(t, "l0"))}, {Kind: "string", S: "x"}}}
+		case 5:
+			return gn.Val{Kind: rapid.SampledFrom([]string{"json", "jsonietf", "ascii", "bytes"}).Draw(t, "textkind"), S: rapid.SampledFrom([]string{`{"a":1}`, `{"a": 1}`, "x"}).Draw(t, "text")}
+		default:
+			return gn.Val{Kind: "double", S: rapid.SampledFrom([]string{"nan", "inf", "-0"}).Draw(t, "special")}
+		}
+	}
 	switch rapid.IntRange(0, 6).Draw(t, "vkind") {
 	case 6:
 		// the deprecated Update.value field
